@@ -799,6 +799,21 @@ func (g *Gen) evalCall(env *Env, x *ECall) Val {
 			return Val{T: a.T, S: fmt.Sprintf("(ite %s %s %s)", c.S, a.S, b.S)}
 		}
 		return Val{T: a.T, S: fmt.Sprintf("(ite %s %s %s)", c.S, b.S, a.S)}
+	case "str":
+		// str(b): the string with the bytes of slice b (the term the engine uses for the conversion string(b))
+		v := g.eval(env, x.Args[0])
+		if v.T != nil && isString(v.T) {
+			return Val{T: types.Typ[types.String], S: v.S}
+		}
+		if v.T == nil {
+			panic(evalErr("str() needs a byte slice"))
+		}
+		if _, ok := v.T.Underlying().(*types.Slice); !ok {
+			panic(evalErr("str() needs a byte slice"))
+		}
+		eh := g.arrHeap(types.Typ[types.Uint8])
+		f := g.uf("s.ofbytes", []string{"(Array " + g.idxSort() + " " + g.sortOf(types.Typ[types.Uint8]) + ")", g.idxSort(), g.idxSort()}, "Str")
+		return Val{T: types.Typ[types.String], S: fmt.Sprintf("(%s (select %s (sl.ref %s)) (sl.off %s) (sl.len %s))", f, g.heapGet(env.st, eh), v.S, v.S, v.S)}
 	case "refof":
 		// the object reference an interface value holds
 		v := g.eval(env, x.Args[0])
